@@ -8,7 +8,8 @@ as Colang 1.0 source for the real parser):
 
   stmt ::= ["user", i] | ["bot", b] | ["set", x, expr] | ["if", cond, [stmt..], [stmt..]]
          | ["while", cond, [stmt..]] | ["do", k]            (k = 1-based index of a subflow in flows)
-         | ["exec", a, r]                                   (r = "" : no result variable)
+         | ["exec", a, r, p]                                (r = "" : no result variable; p = "" : no argument,
+                                                             otherwise rendered `execute a(v=$p)`)
          | ["break"] | ["continue"]
          | ["when", [[i, [stmt..]], ...]]                   (when user i .. else when user j ..)
   expr ::= ["c", n] | ["v", x] | ["add", expr, expr]
@@ -75,7 +76,7 @@ def _render_block(prog, block, ind, out):
                 e = e[1:-1]
             out.append("%s$%s = %s" % (pad, s[1], e))
         elif t == "exec":
-            out.append("%s%sexecute %s" % (pad, ("$%s = " % s[2]) if s[2] else "", s[1]))
+            out.append("%s%sexecute %s%s" % (pad, ("$%s = " % s[2]) if s[2] else "", s[1], ("(v=$%s)" % s[3]) if s[3] else ""))
         elif t == "do":
             out.append("%sdo %s" % (pad, prog["flows"][s[1] - 1]["name"]))
         elif t == "break":
@@ -262,7 +263,7 @@ class _Gen:
             return ["bot", self.rnd.choice(BOTS)]
         if r < 0.75:
             return self.user_stmt(st)
-        return ["exec", self.rnd.choice(ACTIONS), self.rnd.choice(["r", "r", "x", ""])]
+        return ["exec", self.rnd.choice(ACTIONS), self.rnd.choice(["r", "r", "x", ""]), self.rnd.choice(["", "", "x", "y", "r"])]
 
     def user_stmt(self, st):
         if st["intents"] and self.rnd.random() < 0.15:
@@ -311,7 +312,7 @@ class _Gen:
         if k == "set":
             return self.set_stmt()
         if k == "exec":
-            return ["exec", rnd.choice(ACTIONS), rnd.choice(["r", "r", "x", ""])]
+            return ["exec", rnd.choice(ACTIONS), rnd.choice(["r", "r", "x", ""]), rnd.choice(["", "", "x", "y", "r"])]
         if k == "do":
             return ["do", rnd.choice(st["subs"])]
         if k in ("break", "continue"):
@@ -468,11 +469,11 @@ def corpus():
     add([("f1", False, [["user", "i1"], ["set", "x", C(0)],
                         ["while", ["lt", V("x"), C(2)], [["bot", "b1"], INC("x")]], ["bot", "b2"]])])
     # 3 if / else
-    add([("f1", False, [["user", "i1"], ["exec", "a1", "r"],
+    add([("f1", False, [["user", "i1"], ["exec", "a1", "r", ""],
                         ["if", ["eq", V("r"), C(1)], [["bot", "b1"]], [["bot", "b2"], ["bot", "b3"]]],
                         ["bot", "b4"]])])
     # 4 else-if chain
-    add([("f1", False, [["user", "i1"], ["exec", "a1", "r"],
+    add([("f1", False, [["user", "i1"], ["exec", "a1", "r", ""],
                         ["if", ["eq", V("r"), C(0)], [["bot", "b1"]],
                          [["if", ["eq", V("r"), C(1)], [["bot", "b2"]], [["bot", "b3"]]]]],
                         ["user", "i2"], ["bot", "b4"]])], elif_=True)
@@ -483,7 +484,7 @@ def corpus():
                         ["bot", "b2"]])])
     # 6 continue skipping the rest of the body
     add([("f1", False, [["user", "i1"], ["set", "x", C(0)],
-                        ["while", ["lt", V("x"), C(3)], [["exec", "a1", "r"], INC("x"),
+                        ["while", ["lt", V("x"), C(3)], [["exec", "a1", "r", ""], INC("x"),
                                                          ["if", ["eq", V("r"), C(0)], [["continue"]], []],
                                                          ["bot", "b1"]]],
                         ["bot", "b2"]])])
@@ -491,7 +492,7 @@ def corpus():
     add([("f1", False, [["user", "i1"], ["set", "x", C(0)],
                         ["while", ["lt", V("x"), C(2)],
                          [["bot", "b1"], ["set", "y", C(0)],
-                          ["while", ["true"], [["exec", "a1", "r"],
+                          ["while", ["true"], [["exec", "a1", "r", ""],
                                                ["if", ["eq", V("r"), C(1)], [["break"]], [INC("y")]]]],
                           INC("x")]],
                         ["bot", "b2"]])])
@@ -506,7 +507,7 @@ def corpus():
     # 10 nested subflows
     add([("f1", False, [["user", "i1"], ["do", 2], ["bot", "b3"]]),
          ("s1", True, [["bot", "b1"], ["do", 3], ["bot", "b2"]]),
-         ("s2", True, [["exec", "a1", "x"], ["if", ["lt", V("x"), C(1)], [["user", "i2"]], []]])])
+         ("s2", True, [["exec", "a1", "x", ""], ["if", ["lt", V("x"), C(1)], [["user", "i2"]], []]])])
     # 11 when / else when
     add([("f1", False, [["user", "i1"], ["bot", "b1"],
                         ["when", [["i2", [["bot", "b2"]]], ["i3", [["bot", "b3"], ["user", "i4"]]]]],
@@ -518,7 +519,7 @@ def corpus():
                         ["bot", "b3"]])])
     # 13 two top-level flows
     add([("f1", False, [["user", "i1"], ["bot", "b1"], ["user", "i2"], ["bot", "b2"]]),
-         ("f2", False, [["user", "i3"], ["exec", "a1", ""], ["bot", "b3"]])])
+         ("f2", False, [["user", "i3"], ["exec", "a1", "", ""], ["bot", "b3"]])])
     # 14 unset variable compared (None == 0 is False), boolean connectives
     add([("f1", False, [["user", "i1"],
                         ["if", ["or", ["eq", V("x"), C(0)], ["not", ["eq", V("y"), V("x")]]], [["bot", "b1"]], [["bot", "b2"]]],
@@ -527,7 +528,7 @@ def corpus():
     # 15 if nested in if nested in while, else branch continues
     add([("f1", False, [["user", "i1"], ["set", "x", C(0)], ["set", "y", C(0)],
                         ["while", ["lt", V("y"), C(3)],
-                         [["exec", "a2", "r"], INC("y"),
+                         [["exec", "a2", "r", ""], INC("y"),
                           ["if", ["lt", V("r"), C(2)],
                            [["if", ["eq", V("r"), C(0)], [["bot", "b1"]], [["continue"]]], INC("x")],
                            [["break"]]]]],
@@ -542,7 +543,7 @@ def corpus():
                         ["while", ["lt", V("x"), C(2)], [["bot", "b1"], ["user", "i2"], INC("x")]],
                         ["bot", "b2"]])])
     # 18 execute without result, result overwriting a loop counter
-    add([("f1", False, [["user", "i1"], ["exec", "a1", ""], ["exec", "a2", "x"],
+    add([("f1", False, [["user", "i1"], ["exec", "a1", "", ""], ["exec", "a2", "x", ""],
                         ["while", ["lt", V("x"), C(2)], [["bot", "b1"], INC("x")]], ["bot", "b2"]])])
     # 19 subflow whose only statement calls a subflow that waits for the user
     add([("f1", False, [["user", "i1"], ["do", 2], ["bot", "b2"]]),
@@ -550,8 +551,18 @@ def corpus():
          ("s2", True, [["user", "i2"], ["bot", "b1"]])])
     # 20 nested call entered in one silent run, the caller continues with an action after the call
     add([("f1", False, [["user", "i1"], ["set", "x", C(0)], ["do", 2], ["bot", "b2"]]),
-         ("s1", True, [["do", 3], ["exec", "a1", "r"]]),
+         ("s1", True, [["do", 3], ["exec", "a1", "r", ""]]),
          ("s2", True, [["user", "i2"], INC("x")])])
+    # 21 action argument taken from a variable set by an earlier action
+    add([("f1", False, [["user", "i1"], ["exec", "a1", "x", ""], ["exec", "a2", "r", "x"],
+                        ["if", ["eq", V("r"), C(1)], [["bot", "b1"]], [["bot", "b2"]]]])])
+    # 22 action argument = loop variable, result = loop variable
+    add([("f1", False, [["user", "i1"], ["set", "x", C(0)],
+                        ["while", ["lt", V("x"), C(2)], [["exec", "a1", "x", "x"]]], ["bot", "b1"]])])
+    # 23 the same statement reached with different values (counter in a loop, argument in a subflow)
+    add([("f1", False, [["user", "i1"], ["set", "y", C(0)],
+                        ["while", ["lt", V("y"), C(2)], [["do", 2], INC("y")]], ["bot", "b2"]]),
+         ("s1", True, [["exec", "a1", "", "y"]])])
     return P
 
 
